@@ -169,6 +169,85 @@ def url_split_level(ctx):
             ctx.disagree("urlparse(url).path vs model urlparsePath", {"url": u}, pp, unchars(a["parse"]))
 
 
+def move_authority_level(ctx):
+    """is the Destination of a MOVE on this server?  Header combinations a direct client or a reverse proxy produces (Host with and without
+    port, X-Forwarded-Host / -Proto / -Port present or not) x Destination authorities (the same host, another one, explicit default and
+    other ports, other scheme): a Destination on the authority the client addressed is carried out, another one is answered 502, none
+    fails with 500; against RadicaleModel/Netloc.lean"""
+    from common import App
+    rng = ctx.rng("authority")
+    ev = ("BEGIN:VCALENDAR\r\nVERSION:2.0\r\nPRODID:x\r\nBEGIN:VEVENT\r\nUID:%s\r\nDTSTAMP:20240101T000000Z\r\nDTSTART:20240102T100000Z\r\n"
+          "SUMMARY:s\r\nEND:VEVENT\r\nEND:VCALENDAR\r\n")
+    hosts = ["cal.example.org", "127.0.0.1", "localhost", "a-b.c"]
+    with App({"auth": {"type": "none"}}) as app:
+        app.request("MKCALENDAR", "/u/c/", login="u:pw")
+        for i in range(ctx.n(120, 2500)):
+            h = rng.choice(hosts)
+            proxied = rng.random() < 0.5
+            scheme = rng.choice(["http", "https"])
+            default = "443" if scheme == "https" else "80"
+            env = {}
+            if proxied:
+                env["HTTP_X_FORWARDED_HOST"] = h if rng.random() < 0.85 else h + ":8443"
+                if rng.random() < 0.7:
+                    env["HTTP_X_FORWARDED_PROTO"] = scheme
+                else:
+                    scheme = "http"
+                    default = "80"
+                pk = rng.random()
+                if pk < 0.3:
+                    env["HTTP_X_FORWARDED_PORT"] = default
+                elif pk < 0.4:
+                    env["HTTP_X_FORWARDED_PORT"] = "8443"
+                elif pk < 0.45:
+                    env["HTTP_X_FORWARDED_PORT"] = ""
+                env["HTTP_HOST"] = "backend.internal:5232"
+                env["wsgi.url_scheme"] = "http"
+                env["SERVER_PORT"] = "5232"
+                addressed_port = env.get("HTTP_X_FORWARDED_PORT") or default
+                if ":" in env["HTTP_X_FORWARDED_HOST"]:
+                    addressed_port = "8443"
+            else:
+                port = rng.choice([default, default, "5232"])
+                env["HTTP_HOST"] = h if (port == default and rng.random() < 0.7) else "%s:%s" % (h, port)
+                env["wsgi.url_scheme"] = scheme
+                env["SERVER_PORT"] = port
+                env["SERVER_NAME"] = "srv.internal"
+                addressed_port = port
+            # the Destination: on the authority the client addressed (with or without the port spelled out), or elsewhere
+            dk = rng.random()
+            if dk < 0.6:
+                same = True
+                authority = h if (addressed_port == default and rng.random() < 0.6) else "%s:%s" % (h, addressed_port)
+                dscheme = scheme
+            elif dk < 0.8:
+                same = False
+                authority = rng.choice(["other.example", h + ".evil.example", h + ":1", "x" + h])
+                dscheme = scheme
+            else:
+                same = None          # another scheme or port spelling: decided by the model only
+                authority = rng.choice([h, h + ":80", h + ":443", h + ":"])
+                dscheme = rng.choice(["http", "https", "HTTP"])
+            dest = "%s://%s/u/c/b%d.ics" % (dscheme, authority, i)
+            st0, _, _ = app.request("PUT", "/u/c/a%d.ics" % i, ev % ("m%d" % i), login="u:pw")
+            st, _, _ = app.request("MOVE", "/u/c/a%d.ics" % i, login="u:pw", HTTP_DESTINATION=dest, **env)
+            got = "error" if st >= 500 and st != 502 else "remote" if st == 502 else "local"
+            case = {"headers": {k: v for k, v in env.items()}, "destination": dest, "status": st}
+            ctx.case("authority:%s:%s" % ("proxy" if proxied else "direct", got), sample=case, key=["authority", i], nontrivial=got != "local" or proxied)
+            if same is True and got != "local":
+                ctx.violation("a MOVE to a Destination on the authority the client addressed (%s://%s) was answered %d" % (scheme, authority, st), case)
+            if same is False and got != "remote":
+                ctx.violation("a MOVE to a Destination on another server (%s) was answered %d instead of 502" % (authority, st), case)
+            if ctx.driver:
+                a = ctx.driver.ask1({"m": "quote", "op": "moveauth", "fixed": True, "xf_host": chars(env.get("HTTP_X_FORWARDED_HOST", "")),
+                                     "xf_proto": chars(env.get("HTTP_X_FORWARDED_PROTO", "")),
+                                     "xf_port": chars(env["HTTP_X_FORWARDED_PORT"]) if "HTTP_X_FORWARDED_PORT" in env else None,
+                                     "host": chars(env.get("HTTP_HOST", "")), "server_name": chars(env.get("SERVER_NAME", "127.0.0.1")),
+                                     "scheme": chars(env.get("wsgi.url_scheme", "http")), "port": chars(env.get("SERVER_PORT", "80")), "dest": chars(dest)})
+                if a["r"] != got:
+                    ctx.disagree("MOVE Destination authority: local / remote / error vs model Netloc.verdict", case, got, a["r"])
+
+
 MODES = ["none", "script_name", "x_script_name", "config_proxy"]
 
 
@@ -378,5 +457,6 @@ def run(ctx):
                         "the front end strips SCRIPT_NAME / proxy prefix on the decoded path"]
     function_level(ctx)
     url_split_level(ctx)
+    move_authority_level(ctx)
     end_to_end(ctx)
     locations(ctx)
